@@ -47,7 +47,8 @@ func containsCodec(cs []string, c string) bool {
 }
 
 func targetDuration(segments []muxerSegment) int {
-	ret := int(0)
+	// a target duration of zero is not accepted by clients
+	ret := int(1)
 
 	// EXTINF, when rounded to the nearest integer, must be <= EXT-X-TARGETDURATION
 	for _, sog := range segments {
